@@ -769,7 +769,10 @@ class Engine:
 
         if flow_updates:
             for path, flow_update in flow_updates:
-                assoc_path(self.flow, path, flow_update)
+                # a moved step that is not in any flow (a legacy
+                # deriver) reports ``None``: it has no flow entry
+                if flow_update is not None:
+                    assoc_path(self.flow, path, flow_update)
 
         if process_updates:
             for path, process in process_updates:
